@@ -2949,6 +2949,15 @@ class Walker:
                 or (args[0][0] == "call" and args[0][1] == ("builtin", "len"))
                 or (args[0][0] == "idx" and args[0][1][0] == "attr" and args[0][1][2] == "shape" and args[0][2][0] == "const")):
             return args[0]
+        # int(np.max(labels)) of a label vector: labels are integers already
+        if fn == ("builtin", "int") and len(args) == 1 and not kwargs and args[0][0] == "call" \
+                and args[0][1] in (("mod", "numpy.max"), ("mod", "numpy.amax")) and len(args[0][2]) == 1 and not args[0][3]:
+            r0 = args[0][2][0]
+            while r0[0] in ("call", "alloc") and r0[2] and (r0[1] in (("mod", "numpy.asarray"), ("mod", "numpy.asanyarray"))
+                                                          or r0[1] in ("numpy.asarray", "numpy.asanyarray")):
+                r0 = r0[2][0]
+            if r0[0] == "param" and (r0[1].lower().startswith(("label", "pred", "y"))):
+                return args[0]
         # float(d) of a value a metric returned (a float already)
         if fn == ("builtin", "float") and len(args) == 1 and not kwargs and args[0][0] == "call" and (
                 (args[0][1][0] == "attr" and args[0][1][2] == "distance_fn")
